@@ -1,1 +1,3 @@
+import FrappyProofs.Lemmas.Logging
+import FrappyProofs.Lemmas.Rotate
 import FrappyProofs.Props.C20
